@@ -6,7 +6,7 @@ namespace sim {
 
 enum MK { MK_ANY, MK_VAL, MK_EQ, MK_NE, MK_LT, MK_LE, MK_GT, MK_GE, MK_NOTEQ, MK_ANYOF, MK_TYPEDANY,
           // range matchers over the argument {a, a + 1, a} of v(const std::vector<int>&)
-          MK_RINC2, MK_RINC11, MK_RIS, MK_RSTART, MK_RENDS, MK_RPERM, MK_RALL, MK_RNONE, MK_RANY, MK_RNOTIS };
+          MK_RINC2, MK_RINC11, MK_RIS, MK_RSTART, MK_RENDS, MK_RPERM, MK_RALL, MK_RNONE, MK_RANY, MK_RNOTIS, MK_RENDS3 };
 enum WK { WK_LE, WK_GE, WK_NE, WK_EQ, WK_LT12, WK_NESNAP, WK_LTMAC };
 enum BF { BF_DEFAULT, BF_T2, BF_T13, BF_T02, BF_AL1, BF_AL2, BF_AM2, BF_RT1, BF_RT2, BF_ALLOW, BF_FORBID, BF_T0,
           BF_T11, BF_AL0, BF_T3, BF_T24, BF_RTAL, BF_RTAM };
